@@ -204,7 +204,9 @@ func (p *Parser) readSymbols(seq []rune, pos, end int, tok token, allowStrings b
 	start = findNonSpace(seq, pos, end)
 	var ok bool
 
-	if c := grab(seq, start, end); allowStrings || c == '"' || c == '\'' {
+	// Only a value that starts with a quote is a quoted string: any other value ends at
+	// the next blank, even if its first character occurs again further on.
+	if c := grab(seq, start, end); allowStrings && (c == '"' || c == '\'') {
 		var epos int
 		if epos, ok = findStringEnd(seq, start, end); ok {
 			pos = epos
